@@ -150,6 +150,38 @@ class GuardView:
                     return True
         return False
 
+    def parent_is_dir(self, key):
+        """some guard says: the entry looked up under parent(key) has file_type == Directory"""
+        isp = self.parent_key(key)
+
+        def entry_key(t):
+            t0 = t
+            for _ in range(4):
+                if t0[0] == "okval":
+                    lk = self._lookup_key(t0[1])
+                    if lk:
+                        return lk[0]
+                    t0 = t0[1]
+                    continue
+                break
+            return None
+        for g in self.gs:
+            a = want = None
+            if g[0] == "bool" and g[1][0] == "call" and g[1][1] in ("PartialEq::ne", "PartialEq::eq") and len(g[1][2]) == 2:
+                x, y = g[1][2]
+                if x[0] == "field" and x[2] == "file_type" and y[0] == "agg":
+                    is_ne = g[1][1] == "PartialEq::ne"
+                    holds_eq = (g[2] is False) if is_ne else (g[2] is True)
+                    if (holds_eq and y[2] == "Directory") or ((not holds_eq) and y[2] == "File"):
+                        a = x[1]
+            if g[0] == "variant" and g[1][0] == "field" and g[1][2] == "file_type" and g[3] == "Directory":
+                a = g[1][1]
+            if a is not None:
+                k = entry_key(a)
+                if k is not None and isp(k):
+                    return True
+        return False
+
     def _exists_keys(self, g):
         out = []
         if g[0] == "variant" and g[2] == "ok":
@@ -209,7 +241,7 @@ class MemoryModel:
         cb = self.code(b)
         tr = get_tracer(self.facts, cb)
         # in the outer fn it is argument 1; inside the coroutine it resolves to the same ('arg', 1, 'path', outer)
-        return ("arg", 1, "path", b.id)
+        return ("arg", 1, b.name_of_local(2) or "path", b.id)
 
     def guards(self, cb, bb):
         return self.D.guards(cb, bb)
